@@ -8,7 +8,7 @@
 From Coq Require Import String.
 From Coq Require Import List Arith ZArith.
 Import ListNotations.
-From YP Require Import Base.Str Term.Term Engine.Db Engine.DbCursor Engine.DbCursorThms Engine.DbSpec Engine.DbFacts Engine.DbProg Engine.DbProgThms Engine.RunDbProg.
+From YP Require Import Base.Str Term.Term Engine.Db Engine.DbCursor Engine.DbCursorThms Engine.DbSpec Engine.DbTotal Engine.DbFacts Engine.DbProg Engine.DbProgThms Engine.RunDbProg.
 
 (* For every history of asserta / assertz / assert_fact / query (all answers, or j answers then
    close) / retract (j answers requested, then closed; j larger than the number of matches = run to
@@ -63,6 +63,15 @@ Theorem C07_ids_invariant : forall mt evs s s' outs,
   ids_ok (sdb s) (snext s) -> run mt s evs = Some (s', outs) -> ids_ok (sdb s') (snext s').
 Proof. intros mt evs s s' outs I H. exact (proj2 (@no_lost_update mt evs s s' outs I H)). Qed.
 Print Assumptions C07_ids_invariant.
+
+(* "none of these raises": the model has exactly one way of not returning a result - a match outside the
+   specified domain (MStuck: it would build a cyclic term, or the model's fuel ran out).  For every matching
+   function that is never stuck, every event of every history returns: zero-argument facts, goals that are
+   not callable, predicates without facts, exhausted and closed cursors included *)
+Theorem C07_nothing_raises : forall mt, (forall pat args, mt pat args <> MStuck) ->
+  forall evs s, exists s' outs, run mt s evs = Some (s', outs).
+Proof. exact run_total. Qed.
+Print Assumptions C07_nothing_raises.
 
 (* non-vacuity: a history over p/1, flag/0 (zero arguments), q/2 and a predicate without facts, with the
    concrete matching function: nothing raises, nothing is ignored *)
